@@ -88,14 +88,76 @@ def render_all(only=None, combined=False):
 _BASELINE = {}
 
 
+def render_single(name, which):
+    """ONE render in this process: renderer `name` (or 'bare-ast') on probe number `which` ('comb' = the combined document)"""
+    from mistletoe import Document
+    from mistletoe.ast_renderer import get_ast
+    if name == 'bare-ast':
+        d = COMBINED if which == 'comb' else PROBES[which]
+        return json.dumps(get_ast(Document(d)), sort_keys=True)
+    for n, cls, kw in renderers():
+        if n == name:
+            docs = NOCODE if name == 'Pygments' else PROBES
+            d = (COMBINED_NOCODE if name == 'Pygments' else COMBINED) if which == 'comb' else docs[which]
+            try:
+                with cls(**kw) as r:
+                    return r.render(Document(d))
+            except Exception as e:
+                return 'EXC ' + type(e).__name__
+    return None
+
+
 def baseline():
-    """outputs in a FRESH plain interpreter (no CrossHair, no history)"""
-    if 'b' not in _BASELINE:
-        code = 'import json; import vfy.lemmas.c11 as c; print("BASE " + json.dumps({"sep": c.render_all(), "comb": c.render_all(combined=True)}))'
-        env = dict(os.environ, PYTHONPATH='/verif:' + L.REPO, PYTHONHASHSEED='0')
+    """every (renderer, probe) output computed in its OWN fresh plain interpreter: no history at all, not even the
+    other probes.  Cached on disk under a key made of the source of the tree under test (the baseline only depends on it)."""
+    if 'b' in _BASELINE:
+        return _BASELINE['b']
+    import hashlib
+    import glob
+    from concurrent.futures import ThreadPoolExecutor
+    h = hashlib.sha256()
+    for f in sorted(glob.glob(L.REPO + '/mistletoe/**/*.py', recursive=True)):
+        h.update(open(f, 'rb').read())
+    h.update(repr(PROBES).encode())
+    cdir = '/verif/.cache'
+    os.makedirs(cdir, exist_ok=True)
+    path = os.path.join(cdir, 'c11-baseline-%s.json' % h.hexdigest()[:24])
+    if os.path.exists(path):
+        try:
+            _BASELINE['b'] = json.load(open(path))
+            return _BASELINE['b']
+        except ValueError:
+            pass
+    names = [n for n, _, _ in renderers()] + ['bare-ast']
+    env = dict(os.environ, PYTHONPATH='/verif:' + L.REPO, PYTHONHASHSEED='0')
+    jobs = []
+    for n in names:
+        ndocs = len(NOCODE) if n == 'Pygments' else len(PROBES)
+        for which in list(range(ndocs)) + ['comb']:
+            jobs.append((n, which))
+
+    def one(job):
+        n, which = job
+        code = 'import json; import vfy.lemmas.c11 as c; print("BASE " + json.dumps(c.render_single(%r, %r)))' % (n, which)
         out = subprocess.run(['/venv/bin/python', '-c', code], capture_output=True, text=True, env=env, timeout=300).stdout
-        _BASELINE['b'] = json.loads(out.split('BASE ', 1)[1])
-    return _BASELINE['b']
+        return job, json.loads(out.split('BASE ', 1)[1])
+    with ThreadPoolExecutor(8) as ex:
+        res = dict(ex.map(one, jobs))
+    base = {'sep': {}, 'comb': {}}
+    for n in names:
+        ndocs = len(NOCODE) if n == 'Pygments' else len(PROBES)
+        base['sep'][n] = [res[(n, i)] for i in range(ndocs)]
+        base['comb'][n] = [res[(n, 'comb')]]
+    tmp = path + '.%d' % os.getpid()
+    json.dump(base, open(tmp, 'w'))
+    os.replace(tmp, path)
+    _BASELINE['b'] = base
+    return base
+
+
+def prepare():
+    """called once by the driver before the jobs start (fills the baseline cache)"""
+    baseline()
 
 
 def token_lists_default():
